@@ -402,3 +402,13 @@ def cube_entry(entry, prologue, outer, inner_index, k, epilogue, kmax, prologue_
         s += '  VP_ASSERT(vp_pre_count <= %d, "VP-BOUND: unit performs more atomic operations than there are preemption cubes");\n' % kmax
     s += '  vp_run_pending_unit();\n  vp_pre_enabled = 0;\n  %s();\n}\n' % epilogue
     return s
+
+
+def native_lib_sources():
+    """every library TU of the production configuration (current working tree), for native replay builds"""
+    import glob
+    out = []
+    for d in ('algo', 'async', 'exe', 'lazy', 'runtime', 'util'):
+        out += sorted(glob.glob(os.path.join(REPO, 'src', d, '*.cpp')))
+    out.append(os.path.join(REPO, 'src', 'log.cpp'))
+    return out
